@@ -29,8 +29,8 @@ func init() {
 	engine.Register(&engine.Check{
 		ID:         "C09",
 		Technique:  "explicit-state search over socket-set histories (open orders, closes, interface toggles) on the real stack with exhaustive injection of the inbound 4-tuple alphabet after every operation, against a most-specific-match reference; stateless model checking (cooperative scheduler, all schedules) of registration/unregistration racing delivery",
-		Rule:       "sockets from {UDP bound *:P, A1:P, A2:P, A3:P(NIC2), A1:P connected to R:Q, *:P connected to R:Q; TCP listener *:P, A1:P}: all sets of size <=3 in all open orders, then each single close; toggles promiscuous / subnet; after each operation inject dst {A1,A2,A3,foreign,unassigned} x dport {P,P'} x src {R,R'} x sport {Q,Q'} x {UDP, TCP SYN, TCP ACK+data} on each NIC; distinct = distinct (history, packet)",
-		Assumes:    []string{"sockets are registered with the global demultiplexer (NIC 0) except accepted TCP connections; sockets explicitly bound to a NIC are outside the alphabet"},
+		Rule:       "sockets from {UDP bound *:P, A1:P, A2:P, A3:P(NIC2), A1:P connected to R:Q, *:P connected to R:Q; the same connected through NIC 1 explicitly, A1:P bound on NIC 1, *:P bound on NIC 2; TCP listener *:P, A1:P}: all sets of size <=3 in all open orders, then each single close; toggles promiscuous / subnet; after each operation inject dst {A1,A2,A3,foreign,unassigned} x dport {P,P'} x src {R,R'} x sport {Q,Q'} x {UDP, TCP SYN, TCP ACK+data} on each NIC; distinct = distinct (history, packet)",
+		Assumes:    []string{"sockets are registered with the global demultiplexer (NIC 0) except accepted TCP connections"},
 		Jobs:       c09Jobs,
 		Run:        c09Run,
 		Replay:     c09Replay,
@@ -55,11 +55,13 @@ const (
 )
 
 type c09Spec struct {
-	Name   string
-	TCP    bool
-	Listen bool
-	Local  tcpip.Address // "" = wildcard
-	Conn   bool          // connected to R:Q
+	Name    string
+	TCP     bool
+	Listen  bool
+	Local   tcpip.Address // "" = wildcard
+	Conn    bool          // connected to R:Q
+	BindNIC int           // Bind with FullAddress.NIC set (socket lives in that NIC's demultiplexer)
+	ConnNIC int           // Connect with FullAddress.NIC set after a NIC-less bind
 }
 
 var c09Menu = []c09Spec{
@@ -71,6 +73,9 @@ var c09Menu = []c09Spec{
 	{Name: "udp*:P>R:Q", Conn: true},
 	{Name: "tcpL*:P", TCP: true, Listen: true},
 	{Name: "tcpLA1:P", TCP: true, Listen: true, Local: c09A1},
+	{Name: "udp*:P>R:Q@nic1", Conn: true, ConnNIC: 1},
+	{Name: "udpA1:P@nic1", Local: c09A1, BindNIC: 1},
+	{Name: "udp*:P@nic2", BindNIC: 2},
 }
 
 type c09Sock struct {
@@ -141,7 +146,7 @@ func (c *c09World) open(spec c09Spec) bool {
 		proto = tcp.ProtocolNumber
 	}
 	sk := c.r.n.NewSock(proto, ipv4.ProtocolNumber)
-	if err := sk.EP.Bind(tcpip.FullAddress{Addr: spec.Local, Port: c09P}, nil); err != nil {
+	if err := sk.EP.Bind(tcpip.FullAddress{NIC: tcpip.NICID(spec.BindNIC), Addr: spec.Local, Port: c09P}, nil); err != nil {
 		sk.EP.Close()
 		return false
 	}
@@ -152,7 +157,7 @@ func (c *c09World) open(spec c09Spec) bool {
 		}
 	}
 	if spec.Conn {
-		if err := sk.EP.Connect(tcpip.FullAddress{Addr: c09R, Port: c09Q}); err != nil {
+		if err := sk.EP.Connect(tcpip.FullAddress{NIC: tcpip.NICID(spec.ConnNIC), Addr: c09R, Port: c09Q}); err != nil {
 			sk.EP.Close()
 			return false
 		}
@@ -211,6 +216,9 @@ func (c *c09World) expect(p c09Pkt) (idx int, processed bool) {
 		if s.spec.TCP != (p.Kind != "udp") {
 			continue
 		}
+		if nic := s.spec.BindNIC + s.spec.ConnNIC; nic != 0 && nic != p.NIC {
+			continue // the socket lives in one NIC's demultiplexer only
+		}
 		local := s.spec.Local
 		if s.spec.Conn && local == "" {
 			local = c09A1 // connect() on a wildcard-bound socket fixes the local address chosen by the route to R
@@ -228,6 +236,9 @@ func (c *c09World) expect(p c09Pkt) (idx int, processed bool) {
 		}
 		if s.spec.Conn {
 			rank += 2
+		}
+		if s.spec.BindNIC+s.spec.ConnNIC != 0 {
+			rank += 4 // the NIC's own table is consulted before the stack-wide one
 		}
 		if rank > bestRank {
 			best, bestRank = i, rank
